@@ -98,6 +98,13 @@ fn inbound(data: Vec<u8>, chunk_sizes: &[usize], expect_len: Option<usize>) -> I
 }
 
 fn check_inbound(rep: &mut Report, total: usize, terminated: bool, chunks: &[usize], limit: usize, step: usize, label: &str) {
+    // "never a panic" is part of the oracle: a panic inside zlink is a violation, not a dead shard
+    if let Err(p) = vnet::catch(|| check_inbound_inner(rep, total, terminated, chunks, limit, step, label)) {
+        rep.violation("C17/panic-while-receiving", format!("{p}; wire bytes {total}, terminated {terminated}, chunks {:?}", &chunks[..chunks.len().min(12)]), json!({"monitor": "c17", "dir": "in", "wire_bytes": total, "terminated": terminated, "chunks": chunks, "limit": limit, "build": label}));
+    }
+}
+
+fn check_inbound_inner(rep: &mut Report, total: usize, terminated: bool, chunks: &[usize], limit: usize, step: usize, label: &str) {
     // `total` = bytes on the wire for this frame: frame bytes + NUL if terminated.
     let frame_len = if terminated { total - 1 } else { total };
     let mut data = if frame_len >= FRAME_FIXED { frame_of(frame_len) } else { vec![b'7'; frame_len] };
@@ -140,6 +147,12 @@ fn check_inbound(rep: &mut Report, total: usize, terminated: bool, chunks: &[usi
 }
 
 fn check_outbound(rep: &mut Report, pos: usize, len: usize, limit: usize, step: usize, label: &str) {
+    if let Err(p) = vnet::catch(|| check_outbound_inner(rep, pos, len, limit, step, label)) {
+        rep.violation("C17/panic-while-sending", format!("{p}; pos {pos} len {len}"), json!({"monitor": "c17", "dir": "out", "pos": pos, "len": len, "limit": limit, "build": label}));
+    }
+}
+
+fn check_outbound_inner(rep: &mut Report, pos: usize, len: usize, limit: usize, step: usize, label: &str) {
     // Bring the write position to `pos` with fillers (each <= 20_000 bytes), then enqueue `len`.
     let wire = new_wire(0);
     let mut conn = Connection::new(VSocket(wire.clone()));
@@ -203,6 +216,26 @@ fn check_outbound(rep: &mut Report, pos: usize, len: usize, limit: usize, step: 
                 return;
             }
             rep.count("outbound_overflow_reported");
+            // a refused message stays refused: retrying it (or anything at least as large) must fail the same
+            // way every time, and must not make the buffer creep beyond the limit
+            for attempt in 0..6 {
+                match conn.enqueue_call(&f) {
+                    Err(Error::BufferOverflow) => {}
+                    other => {
+                        rep.violation("C17/refused-message-accepted-when-retried", format!("retry #{attempt} of a message refused with BufferOverflow returned {other:?} (pos {pos} len {len} limit {limit})"), replay.clone());
+                        return;
+                    }
+                }
+                #[cfg(zlink_verif)]
+                {
+                    let b = conn.write().verif_state().1;
+                    if b > limit + step {
+                        rep.violation("C17/send-buffer-grew-beyond-limit-plus-step", format!("buffer length {b} after {} refused attempts", attempt + 2), replay.clone());
+                        return;
+                    }
+                }
+            }
+            rep.count("refused_messages_retried");
         }
         Err(e) => {
             rep.violation("C17/outbound-wrong-error-kind", format!("{e:?}"), replay.clone());
